@@ -85,6 +85,13 @@ def run(prop, tier, seed, known):
         L = rng.randint(1, 3)
         h = [level(1 if (lv == 0 and rng.random() < 0.6) else rng.randint(1, 2 + lv), end) for lv in range(L)]
         labs = [[rng.choice(['a', 'b', 'c', 'A']) for _ in lv] for lv in h]
+        if rng.random() < 0.25:
+            # the segments of a level listed out of chronological order (valid: a level is a set of labelled intervals)
+            for k_ in range(L):
+                order = list(range(len(h[k_])))
+                rng.shuffle(order)
+                h[k_] = [h[k_][o] for o in order]
+                labs[k_] = [labs[k_][o] for o in order]
         return h, labs
     with warnings.catch_warnings():
         warnings.simplefilter('ignore')
